@@ -249,6 +249,8 @@ func randomLine(r *vlib.Rand, cli bool) line {
 			kind = "traces"
 		case 1, 2:
 			kind = "tree"
+		case 3:
+			kind = "dot"
 		}
 		l := line{kind, event{Ev: "report", Kind: kind}}
 		if !cli && r.Intn(3) == 0 {
@@ -337,6 +339,21 @@ func fillReport(e *event, out string) error {
 		e.Rows = []row{}
 		for _, n := range rows {
 			e.Rows = append(e.Rows, row{Fn: n.Name, Flat: n.Flat, Cum: n.Cum})
+		}
+		e.Total, e.HasTotal = lg.Total, lg.HasShowing
+	case "dot":
+		lg, nodes, edges, err := vdrv.Dot(out)
+		if err != nil {
+			return err
+		}
+		e.Kind = "tree" // the same figures through another printer
+		e.Rows = []row{}
+		for _, n := range nodes {
+			e.Rows = append(e.Rows, row{Fn: n.Name, Flat: n.Flat, Cum: n.Cum})
+		}
+		e.Edges = []erow{}
+		for _, x := range edges {
+			e.Edges = append(e.Edges, erow{Src: x.Src, Dst: x.Dst, W: x.W})
 		}
 		e.Total, e.HasTotal = lg.Total, lg.HasShowing
 	case "tree":
@@ -766,5 +783,5 @@ func main() {
 	for i := 0; i < n; i++ {
 		oneRun(i, r)
 	}
-	run.Finish("whole runs of driver.PProf observed at the plug-in boundaries: 1-3 sources and 0-2 -base or -diff_base sources (each failing with probability 1/5), profile-level drop/keep frame rules, sources that are symbolized or address-only (the names then come from the Symbolizer plug-in, before the drop rules apply), x command-line mode, interactive sessions of 1-5 lines (focus / ignore / hide / show / tagfocus / tagignore / granularity / sample_index / mean / relative_percentages assignments, top / tree / traces reports with per-command arguments, rejected and ignored lines) or a web server answering /top requests with per-request options, concretised with varying id layouts; every boundary event validated by TLC against the machine of Pprof.tla; non-trivial = distinct (mode, sources, lines)")
+	run.Finish("whole runs of driver.PProf observed at the plug-in boundaries: 1-3 sources and 0-2 -base or -diff_base sources (each failing with probability 1/5), profile-level drop/keep frame rules, sources that are symbolized or address-only (the names then come from the Symbolizer plug-in, before the drop rules apply), x command-line mode, interactive sessions of 1-5 lines (focus / ignore / hide / show / tagfocus / tagignore / granularity / sample_index / mean / relative_percentages assignments, top / tree / dot / traces reports with per-command arguments, rejected and ignored lines) or a web server answering /top requests with per-request options, concretised with varying id layouts; every boundary event validated by TLC against the machine of Pprof.tla; non-trivial = distinct (mode, sources, lines)")
 }
